@@ -137,7 +137,9 @@ func genBasePlaceholderName(node ast.Node, defaultName string) string {
 func genBasePlaceholderNameFromExpr(expr ast.Node, defaultName string) string {
 	switch expr := expr.(type) {
 	case *ast.GlobalNode:
-		return toUpperUnderscore(expr.Name)
+		// the part after the last dot, as for a data reference (official Soy's
+		// extractPartAfterLastDot): {app.MAX_ITEMS} is the placeholder MAX_ITEMS
+		return toUpperUnderscore(expr.Name[strings.LastIndex(expr.Name, ".")+1:])
 	case *ast.DataRefNode:
 		if len(expr.Access) == 0 {
 			return toUpperUnderscore(expr.Key)
